@@ -193,149 +193,106 @@ theorem InvR.withXsi {R R'} {U : Universe} {t : Track} {s s' : State} (h : InvR 
     obtain ⟨w, hw, hs, hr⟩ := h1
     exact Or.inr ⟨w, hw, hs, hx _ hr⟩
 
-/-- `local_names_match` in any situation keeps the weak invariant; its result is
-the specified one whenever the class is buildable or still listed under its key -/
+/-- `local_names_match` in any situation keeps the weak invariant and returns the
+specified answer (since the `ValueError` of a repeated removal is suppressed) -/
 theorem doLocalNamesMatchW {U : Universe} {t : Track} {s : State} (hI : InvW U t s)
-    (hc : consistent U t.uses) {c : ClassId} (hu : (c, none) ∈ t.uses) (names : List Str) :
-    ∃ s' r, doLocalNamesMatch U s names c = (s', r) ∧ InvW U t s' ∧
-      s'.sysModules = s.sysModules ∧
+    (c : ClassId) (names : List Str) :
+    ∃ s', doLocalNamesMatch U s names c =
+        (s', .ok (match pureBuild U c none with
+          | .ok m => namesMatch names m
+          | .error _ => false)) ∧
+      InvW U t s' ∧ s'.sysModules = s.sysModules ∧
       (∀ idx, EvictRel U s.xsi idx → EvictRel U s'.xsi idx) ∧
-      (∀ m, pureBuild U c none = .ok m →
-        r = .ok (namesMatch names m) ∧ s'.xsi = s.xsi ∧ s'.cache.lookup c = some m) ∧
+      (∀ m, pureBuild U c none = .ok m → s'.xsi = s.xsi ∧ s'.cache.lookup (c, none) = some m) ∧
       (buildable U c = false →
-        (∀ k l, indexKey U c = some k → s.xsi.lookup k = some l → c ∈ l →
-          r = .ok false ∧ s'.xsi = dictSet s.xsi k (l.erase c)) ∧
-        (∀ k, s'.xsi.lookup k = s.xsi.lookup k ∨
-          ∃ l, s.xsi.lookup k = some l ∧ s'.xsi.lookup k = some (l.erase c))) := by
-  obtain ⟨s1, hb1, hI1, hx1, hm1, hl1⟩ := doBuild_spec hI hc hu
+        ∀ k l, indexKey U c = some k → s.xsi.lookup k = some l →
+          s'.xsi = dictSet s.xsi k (l.erase c)) := by
+  obtain ⟨s1, hb1, hI1, hx1, hm1, hl1⟩ := doBuild_spec hI c none
   unfold doLocalNamesMatch
   rw [hb1]
   cases hb : pureBuild U c none with
   | ok m =>
-    refine ⟨s1, _, rfl, hI1, hm1, fun idx h => by rw [hx1]; exact h, ?_, ?_⟩
+    refine ⟨s1, rfl, hI1, hm1, (fun idx h => by rw [hx1]; exact h), ?_, ?_⟩
     · intro m' hm'
       cases hm'
-      exact ⟨rfl, hx1, by rw [hb] at hl1; exact hl1 m rfl⟩
+      exact ⟨hx1, by rw [hb] at hl1; exact hl1 m rfl⟩
     · intro hbf; simp [buildable, hb] at hbf
   | error e =>
     have hbf : buildable U c = false := by simp [buildable, hb]
     dsimp only
     cases hk : indexKey U c with
     | none =>
-      refine ⟨s1, _, rfl, hI1, hm1, (fun idx h => by rw [hx1]; exact h), (by intro m hm; cases hm), ?_⟩
-      intro _
-      exact ⟨(by intro k l h; cases h), fun k => Or.inl (by rw [hx1])⟩
+      refine ⟨s1, rfl, hI1, hm1, (fun idx h => by rw [hx1]; exact h), (by intro m hm; cases hm), ?_⟩
+      intro _ k l h
+      cases h
     | some k =>
       dsimp only
       cases hlk : s1.xsi.lookup k with
       | none =>
-        refine ⟨s1, _, rfl, hI1, hm1, (fun idx h => by rw [hx1]; exact h), (by intro m hm; cases hm), ?_⟩
-        intro _
-        refine ⟨?_, fun k => Or.inl (by rw [hx1])⟩
-        intro k' l hk' hl' _
+        refine ⟨s1, rfl, hI1, hm1, (fun idx h => by rw [hx1]; exact h), (by intro m hm; cases hm), ?_⟩
+        intro _ k' l hk' hl'
         cases hk'
         rw [hx1, hl'] at hlk
         cases hlk
       | some l =>
         dsimp only
-        unfold listRemove
-        by_cases hmem : l.contains c = true
-        · rw [if_pos hmem]
-          dsimp only
-          have hlk' : s.xsi.lookup k = some l := by rw [← hx1]; exact hlk
-          refine ⟨{ s1 with xsi := dictSet s1.xsi k (l.erase c) }, _, rfl, ?_, hm1, ?_,
-            (by intro m hm; cases hm), ?_⟩
-          · exact hI1.withXsi rfl rfl (fun idx h => h.evict hlk hbf)
-          · intro idx h
-            have h' : EvictRel U s1.xsi idx := by rw [hx1]; exact h
-            exact h'.evict hlk hbf
-          · intro _
-            refine ⟨?_, ?_⟩
-            · intro k' l' hk' hl' _
-              cases hk'
-              rw [hlk'] at hl'
-              cases hl'
-              exact ⟨rfl, by rw [hx1]⟩
-            · intro k'
-              by_cases hkk : k' = k
-              · subst hkk
-                exact Or.inr ⟨l, hlk', by simp [lookup_dictSet_self]⟩
-              · exact Or.inl (by simp [lookup_dictSet_ne _ _ _ _ hkk, hx1])
-        · rw [if_neg hmem]
-          dsimp only
-          refine ⟨s1, _, rfl, hI1, hm1, (fun idx h => by rw [hx1]; exact h), (by intro m hm; cases hm), ?_⟩
-          intro _
-          refine ⟨?_, fun k => Or.inl (by rw [hx1])⟩
-          intro k' l' hk' hl' hcl
+        have hlk' : s.xsi.lookup k = some l := by rw [← hx1]; exact hlk
+        refine ⟨{ s1 with xsi := dictSet s1.xsi k (l.erase c) }, rfl, ?_, hm1, ?_,
+          (by intro m hm; cases hm), ?_⟩
+        · exact hI1.withXsi rfl rfl (fun idx h => h.evict hlk hbf)
+        · intro idx h
+          have h' : EvictRel U s1.xsi idx := by rw [hx1]; exact h
+          exact h'.evict hlk hbf
+        · intro _ k' l' hk' hl'
           cases hk'
-          rw [hx1, hl'] at hlk
-          cases hlk
-          exact absurd (by simpa using hcl) hmem
-
+          rw [hlk'] at hl'
+          cases hl'
+          show dictSet s1.xsi k (l.erase c) = dictSet s.xsi k (l.erase c)
+          rw [hx1]
 
 /-- the inner loop of `find_type_by_fields` over a snapshot, with evictions -/
-theorem scanTypesW {U : Universe} {t : Track} (hc : consistent U t.uses) (names : List Str)
-    (idx : Idx) (k : Str) :
+theorem scanTypesW {U : Universe} {t : Track} (names : List Str) (idx : Idx) :
     ∀ (rest : List ClassId) (s : State) (acc : List Choice), InvW U t s → EvictRel U s.xsi idx →
-      rest.Sublist ((s.xsi.lookup k).getD []) → (∀ c ∈ rest, (c, none) ∈ t.uses) →
       ∃ s', scanTypes U names rest s acc = (s', .ok (acc ++ rest.filterMap (choiceOf U names))) ∧
         InvW U t s' ∧ EvictRel U s'.xsi idx ∧ s'.sysModules = s.sysModules := by
   intro rest
   induction rest with
-  | nil => intro s acc hI hR _ _; exact ⟨s, by simp [scanTypes], hI, hR, rfl⟩
+  | nil => intro s acc hI hR; exact ⟨s, by simp [scanTypes], hI, hR, rfl⟩
   | cons c rest ih =>
-    intro s acc hI hR hsub hu
-    have hcl : c ∈ (s.xsi.lookup k).getD [] := hsub.subset List.mem_cons_self
-    have hu' : ∀ c' ∈ rest, (c', none) ∈ t.uses := fun c' h => hu c' (List.mem_cons_of_mem _ h)
-    obtain ⟨s1, r, hr1, hI1, hm1, hR1, hok, herr⟩ :=
-      doLocalNamesMatchW hI hc (hu c List.mem_cons_self) names
+    intro s acc hI hR
+    obtain ⟨s1, hr1, hI1, hm1, hR1, hok, _⟩ := doLocalNamesMatchW hI c names
     unfold scanTypes
     rw [hr1]
     cases hb : pureBuild U c none with
     | ok m =>
-      obtain ⟨hr, hx1, hl1⟩ := hok m hb
+      obtain ⟨hx1, hl1⟩ := hok m hb
       obtain ⟨d, hd⟩ := pureBuild_ok_cls U c none m hb
-      have hsub' : rest.Sublist ((s1.xsi.lookup k).getD []) := by
-        rw [hx1]; exact (List.sublist_cons_self c rest).trans hsub
-      subst hr
+      dsimp only
       cases hnm : namesMatch names m with
       | false =>
         dsimp only
-        obtain ⟨s2, hr2, hI2, hR2, hm2⟩ := ih s1 acc hI1 (hR1 idx hR) hsub' hu'
+        obtain ⟨s2, hr2, hI2, hR2, hm2⟩ := ih s1 acc hI1 (hR1 idx hR)
         refine ⟨s2, ?_, hI2, hR2, by rw [hm2, hm1]⟩
         rw [hr2]
         simp [choiceOf, hb, hd, hnm]
       | true =>
-        simp only [hl1, hd]
+        have hdb : doBuild U s1 c none = (s1, .ok m) := by simp [doBuild, hl1]
+        simp only [hdb, hd]
         obtain ⟨s2, hr2, hI2, hR2, hm2⟩ :=
-          ih s1 (acc ++ [(c, (fieldDiff names m, d.name))]) hI1 (hR1 idx hR) hsub' hu'
+          ih s1 (acc ++ [(c, (fieldDiff names m, d.name))]) hI1 (hR1 idx hR)
         refine ⟨s2, ?_, hI2, hR2, by rw [hm2, hm1]⟩
         rw [hr2]
         simp [choiceOf, hb, hd, hnm]
     | error e =>
       have hbf : buildable U c = false := by simp [buildable, hb]
-      have hkey : indexKey U c = some k := hR.keyed k c hcl
-      cases hlk : s.xsi.lookup k with
-      | none => rw [hlk] at hcl; simp at hcl
-      | some l =>
-        rw [hlk] at hcl hsub
-        simp only [Option.getD_some] at hcl hsub
-        obtain ⟨hr, hx1⟩ := (herr hbf).1 k l hkey hlk hcl
-        subst hr
-        dsimp only
-        have hsub' : rest.Sublist ((s1.xsi.lookup k).getD []) := by
-          rw [hx1, lookup_dictSet_self]
-          simp only [Option.getD_some]
-          have := hsub.erase c
-          rwa [List.erase_cons_head] at this
-        obtain ⟨s2, hr2, hI2, hR2, hm2⟩ := ih s1 acc hI1 (hR1 idx hR) hsub' hu'
-        refine ⟨s2, ?_, hI2, hR2, by rw [hm2, hm1]⟩
-        rw [hr2]
-        simp [choiceOf_unbuildable hbf]
+      dsimp only
+      obtain ⟨s2, hr2, hI2, hR2, hm2⟩ := ih s1 acc hI1 (hR1 idx hR)
+      refine ⟨s2, ?_, hI2, hR2, by rw [hm2, hm1]⟩
+      rw [hr2]
+      simp [choiceOf_unbuildable hbf]
 
 /-- the outer loop, with evictions -/
-theorem scanKeysW {U : Universe} {t : Track} (hc : consistent U t.uses) (names : List Str) (idx : Idx)
-    (hu : ∀ k, ∀ c ∈ (idx.lookup k).getD [], (c, none) ∈ t.uses) :
+theorem scanKeysW {U : Universe} {t : Track} (names : List Str) (idx : Idx) :
     ∀ (ks : List Str) (s : State) (acc : List Choice), InvW U t s → EvictRel U s.xsi idx →
       ∃ s', scanKeys U names ks s acc =
           (s', .ok (acc ++ (ks.flatMap fun k => (idx.lookup k).getD []).filterMap (choiceOf U names))) ∧
@@ -346,9 +303,7 @@ theorem scanKeysW {U : Universe} {t : Track} (hc : consistent U t.uses) (names :
   | cons k ks ih =>
     intro s acc hI hR
     unfold scanKeys
-    obtain ⟨s1, hr1, hI1, hR1, hm1⟩ :=
-      scanTypesW hc names idx k ((s.xsi.lookup k).getD []) s acc hI hR (List.Sublist.refl _)
-        (fun c hcm => hu k c ((hR.sub k).subset hcm))
+    obtain ⟨s1, hr1, hI1, hR1, hm1⟩ := scanTypesW names idx ((s.xsi.lookup k).getD []) s acc hI hR
     rw [hr1]
     dsimp only
     obtain ⟨s2, hr2, hI2, hR2, hm2⟩ := ih s1 _ hI1 hR1
@@ -380,39 +335,20 @@ theorem doBuildXsiW {U : Universe} {t : Track} {s : State} (hI : InvW U t s) {w 
   · rw [if_neg hst]
     exact ⟨EvictRel.refl U _, rfl, rfl, ⟨hI.cache, Or.inr ⟨w, hw, rfl, EvictRel.refl U _⟩⟩⟩
 
-/-- **`find_type_by_fields` refines the specification whatever has been evicted**
-(since 7df03d4) -/
+/-- **`find_type_by_fields` refines the specification whatever has been evicted** -/
 theorem doFindTypeByFieldsW {U : Universe} {t : Track} {s : State} (hI : InvW U t s) {w : World}
-    (hw : w ∈ t.worlds) (hf : faithful t.worlds) (hc : consistent U t.uses) (names : List Str)
-    (hu : ∀ u ∈ opUses U w (.findTypeByFields names), u ∈ t.uses) :
+    (hw : w ∈ t.worlds) (hf : faithful t.worlds) (names : List Str) :
     ∃ s', doFindTypeByFields U w s names = (s', .ok (pureFields U w names)) ∧ InvW U t s' := by
   obtain ⟨hR, _, _, hI0⟩ := doBuildXsiW hI hw hf
   unfold doFindTypeByFields
-  have hall : ∀ k, ∀ c ∈ ((pureIndex U w.loaded).lookup k).getD [], (c, none) ∈ t.uses := by
-    intro k c hcm
-    by_cases hk : k ∈ (pureIndex U w.loaded).map (·.1)
-    · apply hu
-      simp only [opUses]
-      refine List.mem_map.mpr ⟨c, ?_, rfl⟩
-      unfold indexedClasses
-      exact List.mem_flatMap.mpr ⟨k, hk, hcm⟩
-    · -- a key that is not in the dict has no list
-      have : (pureIndex U w.loaded).lookup k = none := by
-        cases hl : (pureIndex U w.loaded).lookup k with
-        | none => rfl
-        | some l =>
-          exact absurd (lookup_some_mem_keys _ k l hl) hk
-      rw [this] at hcm
-      simp at hcm
   obtain ⟨s2, hr2, hI2, _, _⟩ :=
-    scanKeysW hc names (pureIndex U w.loaded) hall ((doBuildXsi U w s).xsi.map (·.1))
+    scanKeysW names (pureIndex U w.loaded) ((doBuildXsi U w s).xsi.map (·.1))
       (doBuildXsi U w s) [] hI0 hR
   dsimp only
   rw [hr2]
   refine ⟨s2, ?_, hI2⟩
   rw [hR.keys]
   simp [pureFields, indexedClasses]
-
 
 theorem doFindTypesW {U : Universe} {t : Track} {s : State} (hI : InvW U t s) {w : World}
     (hw : w ∈ t.worlds) (hf : faithful t.worlds) (q : Str) : InvW U t (doFindTypes U w s q).1 := by
@@ -424,29 +360,40 @@ theorem doFindTypesW {U : Universe} {t : Track} {s : State} (hI : InvW U t s) {w
 
 /-- **one call keeps the weak invariant; eviction-blind calls refine the specification** -/
 theorem stepW_spec {U : Universe} {t : Track} {s : State} (hI : InvW U t s) {w : World} {op : Op}
-    (hok : okStepW U t w op) :
-    InvW U (t.next U w op) (step U w s op).1 ∧
+    (hf : okStepW t w) :
+    InvW U (t.next w op) (step U w s op).1 ∧
       (op.evictionBlind = true → (step U w s op).2 = pureOut U w op) := by
-  obtain ⟨hc, hf, htol⟩ := hok
-  have hI1 : InvW U ⟨t.uses ++ opUses U w op, w :: t.worlds⟩ s :=
-    hI.mono (fun u hu => List.mem_append_left _ hu) (fun w' hw' => List.mem_cons_of_mem _ hw')
-  have hw : w ∈ (⟨t.uses ++ opUses U w op, w :: t.worlds⟩ : Track).worlds := List.mem_cons_self
-  have hus : ∀ u ∈ opUses U w op, u ∈ (⟨t.uses ++ opUses U w op, w :: t.worlds⟩ : Track).uses :=
-    fun u hu => List.mem_append_right _ hu
+  have hI1 : InvW U ⟨w :: t.worlds⟩ s := hI.mono (fun w' hw' => List.mem_cons_of_mem _ hw')
+  have hw : w ∈ (⟨w :: t.worlds⟩ : Track).worlds := List.mem_cons_self
   cases op with
   | build c p =>
-    obtain ⟨s', hb, hI', _⟩ := doBuild_spec hI1 hc (hus (c, p) (by simp [opUses]))
+    obtain ⟨s', hb, hI', _⟩ := doBuild_spec hI1 c p
     simp [step, pureOut, hb, Track.next, hI']
   | fetch c p x =>
-    have hx : truthy x = false := by simpa [Op.evictionTolerant] using htol
-    have hu0 : (c, p) ∈ (⟨t.uses ++ opUses U w (.fetch c p x), w :: t.worlds⟩ : Track).uses :=
-      hus _ (by simp [opUses])
-    obtain ⟨s', hb, hI', _⟩ := doBuild_spec hI1 hc hu0
+    obtain ⟨s1, hb, hI', _⟩ := doBuild_spec hI1 c p
     simp only [step, pureOut, Track.next, doFetch, pureFetch, hb]
     rw [if_neg (by simp)]
     cases hpb : pureBuild U c p with
     | error e => exact ⟨hI', fun _ => rfl⟩
-    | ok m => simp only [hx, Bool.false_and]; exact ⟨hI', fun _ => rfl⟩
+    | ok m =>
+      dsimp only
+      by_cases hx : (truthy x && m.targetQName != x) = true
+      · rw [if_pos hx]
+        have hI2 := doFindTypesW hI' hw hf (x.getD [])
+        refine ⟨?_, ?_⟩
+        · unfold doFindSubclass
+          cases hsub : pickSubclass U c (doFindTypes U w s1 (x.getD [])).2 with
+          | none => simpa [hsub] using hI2
+          | some sub =>
+            simp only [hsub]
+            obtain ⟨s3, hb3, hI3, _⟩ := doBuild_spec hI2 sub p
+            rw [hb3]
+            cases pureBuild U sub p <;> exact hI3
+        · intro hbl
+          have : truthy x = false := by simpa [Op.evictionBlind] using hbl
+          simp [this] at hx
+      · rw [if_neg hx, if_neg hx]
+        exact ⟨hI', fun _ => rfl⟩
   | findTypes q =>
     simp only [step, Track.next]
     rw [if_neg (by simp)]
@@ -460,16 +407,16 @@ theorem stepW_spec {U : Universe} {t : Track} {s : State} (hI : InvW U t s) {w :
     rw [if_neg (by simp)]
     exact ⟨doFindTypesW hI1 hw hf q, by simp [Op.evictionBlind]⟩
   | findTypeByFields names =>
-    obtain ⟨s', h1, h2⟩ := doFindTypeByFieldsW hI1 hw hf hc names hus
+    obtain ⟨s', h1, h2⟩ := doFindTypeByFieldsW hI1 hw hf names
     simp only [step, pureOut, Track.next, h1]
     rw [if_neg (by simp)]
     exact ⟨h2, fun _ => trivial⟩
   | localNamesMatch names c =>
-    obtain ⟨s', r, h1, h2, _⟩ := doLocalNamesMatchW hI1 hc (hus (c, none) (by simp [opUses])) names
-    simp only [step, Track.next, h1]
+    obtain ⟨s', h1, h2, _⟩ := doLocalNamesMatchW hI1 c names
+    simp only [step, pureOut, Track.next, h1]
     rw [if_neg (by simp)]
-    refine ⟨?_, by simp [Op.evictionBlind]⟩
-    cases r <;> exact h2
+    refine ⟨h2, fun _ => ?_⟩
+    cases pureBuild U c none <;> rfl
   | buildXsiCache =>
     simp only [step, pureOut, Track.next]
     rw [if_neg (by simp)]
@@ -478,8 +425,7 @@ theorem stepW_spec {U : Universe} {t : Track} {s : State} (hI : InvW U t s) {w :
     simp only [step, pureOut, Track.next]
     exact ⟨InvR.init U _, fun _ => trivial⟩
   | serialize toks =>
-    obtain ⟨h1, h2⟩ := serWalk_sim hc toks s [] [] [] hI1
-      (fun u hu => hus u (by simpa [opUses, serUses, pureSerialize] using hu))
+    obtain ⟨h1, h2⟩ := serWalk_sim toks s [] [] [] hI1
     simp only [step, pureOut, Track.next]
     rw [if_neg (by simp)]
     unfold Xs.Ctx.serialize pureSerialize
@@ -490,26 +436,207 @@ theorem stepW_spec {U : Universe} {t : Track} {s : State} (hI : InvW U t s) {w :
       cases r <;> exact ⟨h2, fun _ => rfl⟩
 
 theorem run_invW {U : Universe} : ∀ (h : List (World × Op)) (t : Track) (s : State),
-    InvW U t s → histOKW U t h →
-    ∃ t', InvW U t' (run U s h) ∧ (∀ w op, histOKW U t (h ++ [(w, op)]) → okStepW U t' w op)
+    InvW U t s → histOKW t h →
+    ∃ t', InvW U t' (run U s h) ∧ (∀ w op, histOKW t (h ++ [(w, op)]) → okStepW t' w)
   | [], t, s, hI, _ => ⟨t, hI, by intro w op hh; simpa [histOKW] using hh⟩
   | (w, op) :: rest, t, s, hI, hh => by
     obtain ⟨hok, hrest⟩ := hh
-    obtain ⟨hI', _⟩ := stepW_spec hI hok
-    obtain ⟨t', hI'', hnext⟩ := run_invW rest (t.next U w op) (step U w s op).1 hI' hrest
+    obtain ⟨hI', _⟩ := stepW_spec (op := op) hI hok
+    obtain ⟨t', hI'', hnext⟩ := run_invW rest (t.next w op) (step U w s op).1 hI' hrest
     exact ⟨t', hI'', fun w' op' hh' => hnext w' op' hh'.2⟩
 
-theorem histOKW_prefix {U : Universe} : ∀ (h : List (World × Op)) (t : Track) (x : World × Op),
-    histOKW U t (h ++ [x]) → histOKW U t h
+theorem histOKW_prefix : ∀ (h : List (World × Op)) (t : Track) (x : World × Op),
+    histOKW t (h ++ [x]) → histOKW t h
   | [], _, _, _ => trivial
   | (_, _) :: rest, _, x, hx => ⟨hx.1, histOKW_prefix rest _ x hx.2⟩
 
-theorem okStepW_empty {U : Universe} {t : Track} {w : World} {op : Op} (h : okStepW U t w op) :
-    okStepW U Track.empty w op := by
-  obtain ⟨hc, _, htol⟩ := h
-  refine ⟨consistent_sub hc (by intro u hu; simpa [Track.empty] using Or.inr hu), ?_, htol⟩
+theorem okStepW_empty {t : Track} {w : World} (_h : okStepW t w) : okStepW Track.empty w := by
   intro a ha b hb _
   simp [Track.empty] at ha hb
   rw [ha, hb]
+
+/-! ### the cache alone: no side condition at all -/
+
+/-- only the cache part of the invariant -/
+abbrev InvC (U : Universe) := InvR (fun _ _ => True) U
+
+theorem InvC.ofCache {U : Universe} {s : State}
+    (h : ∀ c p m, s.cache.lookup (c, p) = some m → pureBuild U c p = .ok m) :
+    InvC U ⟨[⟨0, s.sysModules - 1⟩]⟩ s := by
+  refine ⟨h, ?_⟩
+  by_cases h0 : s.sysModules = 0
+  · exact Or.inl h0
+  · refine Or.inr ⟨⟨0, s.sysModules - 1⟩, List.mem_singleton.mpr rfl, ?_, trivial⟩
+    show s.sysModules = s.sysModules - 1 + 1
+    omega
+
+theorem doLocalNamesMatch_invC {U : Universe} {t : Track} {s : State} (hI : InvC U t s)
+    (names : List Str) (c : ClassId) : InvC U t (doLocalNamesMatch U s names c).1 := by
+  obtain ⟨s1, hb1, hI1, _, _, _⟩ := doBuild_spec hI c none
+  unfold doLocalNamesMatch
+  rw [hb1]
+  cases pureBuild U c none with
+  | ok m => exact hI1
+  | error e =>
+    dsimp only
+    split
+    · exact hI1
+    · split
+      · exact hI1
+      · exact hI1.withXsi rfl rfl (fun _ _ => trivial)
+
+theorem doLocalNamesMatch_outC {U : Universe} {t : Track} {s : State} (hI : InvC U t s)
+    (names : List Str) (c : ClassId) :
+    (doLocalNamesMatch U s names c).2 = .ok (match pureBuild U c none with
+      | .ok m => namesMatch names m
+      | .error _ => false) := by
+  obtain ⟨s1, hb1, _⟩ := doBuild_spec hI c none
+  unfold doLocalNamesMatch
+  rw [hb1]
+  cases pureBuild U c none with
+  | ok m => rfl
+  | error e =>
+    dsimp only
+    split
+    · rfl
+    · split <;> rfl
+
+theorem scanTypes_invC {U : Universe} {t : Track} (names : List Str) :
+    ∀ (l : List ClassId) (s : State) (acc : List Choice), InvC U t s →
+      InvC U t (scanTypes U names l s acc).1
+  | [], _, _, h => h
+  | c :: rest, s, acc, h => by
+    have h1 := doLocalNamesMatch_invC h names c
+    unfold scanTypes
+    cases hm : doLocalNamesMatch U s names c with
+    | mk s1 r =>
+      rw [hm] at h1
+      cases r with
+      | error e => exact h1
+      | ok b =>
+        cases b with
+        | false => exact scanTypes_invC names rest s1 acc h1
+        | true =>
+          simp only
+          obtain ⟨s2, hb2, hI2, _⟩ := doBuild_spec h1 c none
+          rw [hb2]
+          cases pureBuild U c none with
+          | error e => exact hI2
+          | ok m =>
+            cases U.get? c with
+            | none => exact hI2
+            | some d => exact scanTypes_invC names rest s2 _ hI2
+
+theorem scanKeys_invC {U : Universe} {t : Track} (names : List Str) :
+    ∀ (ks : List Str) (s : State) (acc : List Choice), InvC U t s →
+      InvC U t (scanKeys U names ks s acc).1
+  | [], _, _, h => h
+  | k :: ks, s, acc, h => by
+    have h1 := scanTypes_invC names ((s.xsi.lookup k).getD []) s acc h
+    unfold scanKeys
+    cases hs : scanTypes U names ((s.xsi.lookup k).getD []) s acc with
+    | mk s1 r =>
+      rw [hs] at h1
+      cases r with
+      | error e => exact h1
+      | ok acc1 => exact scanKeys_invC names ks s1 acc1 h1
+
+theorem doBuildXsi_invC {U : Universe} {t : Track} {s : State} (hI : InvC U t s) {w : World}
+    (hw : w ∈ t.worlds) : InvC U t (doBuildXsi U w s) := by
+  unfold doBuildXsi
+  split
+  · exact hI
+  · exact ⟨hI.cache, Or.inr ⟨w, hw, rfl, trivial⟩⟩
+
+theorem doFindTypes_invC {U : Universe} {t : Track} {s : State} (hI : InvC U t s) {w : World}
+    (hw : w ∈ t.worlds) (q : Str) : InvC U t (doFindTypes U w s q).1 := by
+  unfold doFindTypes
+  split
+  · exact hI
+  · exact doBuildXsi_invC hI hw
+
+/-- **every call keeps the cache valid; index-free calls refine the specification
+— with no side condition whatsoever** -/
+theorem stepC_spec {U : Universe} {t : Track} {s : State} (hI : InvC U t s) (w : World) (op : Op) :
+    InvC U ⟨w :: t.worlds⟩ (step U w s op).1 ∧
+      (op.indexFree = true → (step U w s op).2 = pureOut U w op) := by
+  have hI1 : InvC U ⟨w :: t.worlds⟩ s := hI.mono (fun w' hw' => List.mem_cons_of_mem _ hw')
+  have hw : w ∈ (⟨w :: t.worlds⟩ : Track).worlds := List.mem_cons_self
+  cases op with
+  | build c p =>
+    obtain ⟨s', hb, hI', _⟩ := doBuild_spec hI1 c p
+    simp [step, pureOut, hb, hI']
+  | fetch c p x =>
+    obtain ⟨s1, hb, hI', _⟩ := doBuild_spec hI1 c p
+    simp only [step, pureOut, doFetch, pureFetch, hb]
+    cases hpb : pureBuild U c p with
+    | error e => exact ⟨hI', fun _ => rfl⟩
+    | ok m =>
+      dsimp only
+      by_cases hx : (truthy x && m.targetQName != x) = true
+      · rw [if_pos hx]
+        have hI2 := doFindTypes_invC hI' hw (x.getD [])
+        refine ⟨?_, ?_⟩
+        · unfold doFindSubclass
+          cases hsub : pickSubclass U c (doFindTypes U w s1 (x.getD [])).2 with
+          | none => simpa [hsub] using hI2
+          | some sub =>
+            simp only [hsub]
+            obtain ⟨s3, hb3, hI3, _⟩ := doBuild_spec hI2 sub p
+            rw [hb3]
+            cases pureBuild U sub p <;> exact hI3
+        · intro hbl
+          have : truthy x = false := by simpa [Op.indexFree] using hbl
+          simp [this] at hx
+      · rw [if_neg hx, if_neg hx]
+        exact ⟨hI', fun _ => rfl⟩
+  | findTypes q => exact ⟨doFindTypes_invC hI1 hw q, by simp [Op.indexFree]⟩
+  | findType q =>
+    simp only [step, doFindType]
+    exact ⟨doFindTypes_invC hI1 hw q, by simp [Op.indexFree]⟩
+  | findSubclass c q =>
+    simp only [step, doFindSubclass]
+    exact ⟨doFindTypes_invC hI1 hw q, by simp [Op.indexFree]⟩
+  | findTypeByFields names =>
+    refine ⟨?_, by simp [Op.indexFree]⟩
+    have h0 := doBuildXsi_invC hI1 hw
+    have h1 := scanKeys_invC names ((doBuildXsi U w s).xsi.map (·.1)) (doBuildXsi U w s) [] h0
+    simp only [step, doFindTypeByFields]
+    cases hs : scanKeys U names ((doBuildXsi U w s).xsi.map (·.1)) (doBuildXsi U w s) [] with
+    | mk s1 r =>
+      rw [hs] at h1
+      cases r <;> exact h1
+  | localNamesMatch names c =>
+    have h1 := doLocalNamesMatch_invC hI1 names c
+    refine ⟨?_, fun _ => ?_⟩
+    · simp only [step]
+      cases hm : doLocalNamesMatch U s names c with
+      | mk s1 r =>
+        rw [hm] at h1
+        cases r <;> exact h1
+    · have h2 := doLocalNamesMatch_outC hI1 names c
+      simp only [step, pureOut]
+      cases hm : doLocalNamesMatch U s names c with
+      | mk s1 r =>
+        rw [hm] at h2
+        simp only at h2
+        rw [h2]
+        cases pureBuild U c none <;> rfl
+  | buildXsiCache => exact ⟨doBuildXsi_invC hI1 hw, fun _ => rfl⟩
+  | reset => exact ⟨InvR.init U _, fun _ => rfl⟩
+  | serialize toks =>
+    obtain ⟨h1, h2⟩ := serWalk_sim toks s [] [] [] hI1
+    simp only [step, pureOut]
+    unfold Xs.Ctx.serialize pureSerialize
+    rw [← h1]
+    cases hr : (serWalk (fun s c p => doBuild U s c p) toks s [] []) with
+    | mk s' r =>
+      rw [hr] at h2
+      cases r <;> exact ⟨h2, fun _ => rfl⟩
+
+theorem run_invC {U : Universe} : ∀ (h : List (World × Op)) (t : Track) (s : State),
+    InvC U t s → ∃ t', InvC U t' (run U s h)
+  | [], t, _, hI => ⟨t, hI⟩
+  | (w, op) :: rest, _, _, hI => run_invC rest _ _ (stepC_spec hI w op).1
 
 end Xs.Ctx
